@@ -82,7 +82,7 @@ TrConfig == /\ l <= Len(TraceLog) /\ Ev.e = "Config" /\ l' = l + 1 /\ AllDone
 Silent == \/ RTCheck \/ RTEod \/ RTPushChk
           \/ (RTDClose /\ cfg.fd)                                   \* DummyDecompressor::close(): no event
           \/ (RTRead /\ cfg.fd)                                     \* DummyDecompressor::read(): no event
-          \/ PGet \/ PFail \/ PEod \/ PPushChk \/ PDtor \/ PShut0 \/ PFdNext
+          \/ PGet \/ PFail \/ PEod \/ PPushChk \/ PDtor \/ PShut0 \/ PFdNext \/ PQNext
           \/ (real /\ (PParse \/ PEnd \/ Worker))
           \/ ((CStart \/ CHGet \/ CRGet \/ CClose3) /\ clog' = clog)
           \/ CRChk \/ CEod1 \/ CREod \/ CClose0 \/ CClose1 \/ CDJoin \/ CDtor0
